@@ -48,7 +48,7 @@ Proof. constructor; simpl; intros; discriminate. Qed.
 Definition def_of (st : state) (f : string) : option def :=
   match slookup f (funcs st) with
   | Some s => match hget st s with
-              | Some l => if l_place l then None else Some (l_params l, l_forms l)
+              | Some l => if l_place l then None else Some (l_params l, l_forms l, l_clos l)
               | None => None
               end
   | None => None
@@ -533,12 +533,12 @@ Proof.
         -- apply (eval_if_sim n ft IH); auto.
         -- apply (eval_case_sim n ft IH); auto.
       * pose proof (wrapper_user st id f I B) as W.
-        destruct (slookup f ft) as [[ps forms]|] eqn:FT.
+        destruct (slookup f ft) as [[[ps forms] clos]|] eqn:FT.
         -- (* the name has a definition *)
            pose proof (R f) as D. rewrite FT in D. unfold def_of in D.
            destruct (slookup f (funcs st)) as [s|] eqn:F; [|discriminate].
            destruct (hget st s) as [l|] eqn:H; [|discriminate].
-           destruct (l_place l) eqn:PL; [discriminate|]. inversion D; subst ps forms.
+           destruct (l_place l) eqn:PL; [discriminate|]. inversion D; subst ps forms clos.
            destruct (wrapper st id f) as [[b|g a]|]; [contradiction| |discriminate].
            destruct W as (s' & l' & F' & Ha & Hs). inversion F'; subst s'.
            rewrite H in Hs. inversion Hs; subst l'.
@@ -638,11 +638,11 @@ Proof.
 Qed.
 
 Lemma place_cgood : forall st f, resolve st f = None ->
-  cgood st (mkSt (heap st ++ [mkLam f [] [] true]) ((f, List.length (heap st)) :: lambdas st)
+  cgood st (mkSt (heap st ++ [mkLam f [] [] true []]) ((f, List.length (heap st)) :: lambdas st)
                  ((f, List.length (heap st)) :: funcs st) (marks st) (out st)).
 Proof.
   intros st f RN I. destruct (resolve_none _ _ RN) as [B F].
-  set (a := List.length (heap st)). set (pl := mkLam f [] [] true).
+  set (a := List.length (heap st)). set (pl := mkLam f [] [] true []).
   assert (HA : nth_error (heap st ++ [pl]) a = Some pl) by apply nth_error_app_new.
   assert (HO : forall x v, nth_error (heap st) x = Some v -> nth_error (heap st ++ [pl]) x = Some v)
     by (intros; apply nth_error_app_old; auto).
@@ -744,12 +744,12 @@ Proof.
 Qed.
 (* a definition - first or repeated, of a name that has been called before or not - keeps the invariant and
    gives the name exactly that definition; no guard: the creator it installs hands out the registered Lambda *)
-Theorem defunM_step : forall st ft name ps body, Inv st -> Rel st ft ->
-  Inv (defunM st name ps body) /\ Rel (defunM st name ps body) ((name, (ps, body)) :: ft) /\
-  out (defunM st name ps body) = out st.
+Theorem defunM_step : forall st ft name ps body clos, Inv st -> Rel st ft ->
+  Inv (defunM st name ps body clos) /\ Rel (defunM st name ps body clos) ((name, (ps, body, clos)) :: ft) /\
+  out (defunM st name ps body clos) = out st.
 Proof.
-  intros st ft name ps body I R.
-  set (a := List.length (heap st)). set (newl := mkLam name ps body false).
+  intros st ft name ps body clos I R.
+  set (a := List.length (heap st)). set (newl := mkLam name ps body false clos).
   set (st1 := mkSt (heap st ++ [newl]) (lambdas st) (funcs st) (marks st) (out st)).
   assert (C1 : cg st st1) by (apply alloc_cg; exact I).
   set (st2 := fold_left compile_slot body st1).
@@ -836,59 +836,118 @@ Definition HInv (m : mstate) (s : sstate) : Prop :=
 Definition osim (oS oM : obs) : Prop :=
   (comparable (fst oS) = true -> oM = oS) /\ (is_val (fst oS) = false -> is_val (fst oM) = false).
 
-Lemma run_forms_sim : forall n fs st ft gv v, Inv st -> Rel st ft ->
-  exists rM st', run_forms n st gv fs v = (rM, st', snd (run_formsS n ft gv (out st) fs v)) /\
-    sim1 (fst (fst (fst (run_formsS n ft gv (out st) fs v)))) (snd (fst (fst (run_formsS n ft gv (out st) fs v)))) rM st' /\
-    Inv st' /\ Rel st' (snd (fst (run_formsS n ft gv (out st) fs v))).
+(* a variable definition with an init form: M's evaluation (in-place conversion of the init form: stored at once
+   for defparameter, written back afterwards for defvar) gives S's outcome and the same variable table *)
+Lemma gdef_eval_sim : forall n st ft gv always nm init rS oS gvS, Inv st -> Rel st ft ->
+  gdef_evalS (evalS n ft) gv (out st) always nm init = (rS, oS, gvS) ->
+  exists rM st', gdef_eval (evalM n) st gv always nm init = (rM, st', gvS) /\ sim1 rS oS rM st' /\ good st st'.
 Proof.
-  intros n. induction fs as [|t r IH]; simpl; intros st ft gv v I R.
-  - eexists _, _. split; [reflexivity|]. split; [apply sim1_same|auto].
-  - destruct t as [e|nm]; [|apply IH; auto].
-    destruct (parse_defun e) as [[[nm ps] body]|] eqn:PD.
-    + destruct (defunM_step st ft nm ps body I R) as (I' & R' & O'). rewrite <- O'. apply IH; auto.
-    + destruct (parse_gdef e) as [[[always nm] z]|] eqn:PG; [apply IH; auto|].
-      destruct (evalS n ft gv (out st) e) as [r1 o1] eqn:E1.
-      destruct (evalM_sim ft n st gv e r1 o1 I R E1) as (rM & st1 & EM & [S1 S2]).
-      rewrite EM in *. pose proof (evalM_good n _ _ _ _ _ EM) as [T1 I1].
-      destruct r1 as [w| |].
-      * destruct (S1 eq_refl) as [-> O1]. rewrite <- O1. apply IH; auto. eapply same_tabs_rel; eauto.
-      * simpl. pose proof (S2 eq_refl). destruct rM; [discriminate| |];
-          (eexists _, _; split; [reflexivity|]; split; [split; auto|split; [auto|eapply same_tabs_rel; eauto]]).
-      * simpl. pose proof (S2 eq_refl). destruct rM; [discriminate| |];
-          (eexists _, _; split; [reflexivity|]; split; [split; auto|split; [auto|eapply same_tabs_rel; eauto]]).
+  intros n st ft gv always nm init rS oS gvS I R. unfold gdef_evalS, gdef_eval. destruct always.
+  - destruct (premark st init) as [st1|] eqn:P.
+    + pose proof (premark_good _ _ _ P) as G1. destruct G1 as [T1 I1]. pose proof (premark_out _ _ _ P) as O1.
+      rewrite <- O1. destruct (evalS n ft gv (out st1) init) as [r1 o1] eqn:E1.
+      destruct (evalM_sim ft n st1 gv init r1 o1 (I1 I) (same_tabs_rel _ _ _ T1 R) E1) as (rM & st2 & EM & [S1 S2]).
+      rewrite EM. pose proof (evalM_good n _ _ _ _ _ EM) as G2.
+      assert (G : good st st2) by (eapply good_trans; [split; [exact T1|exact I1]|exact G2]).
+      destruct r1 as [v|er|].
+      * destruct (S1 eq_refl) as [-> O2]. intros E; inversion E; subst. eexists _, _. split; [reflexivity|].
+        split; [split; [auto|discriminate]|exact G].
+      * intros E; inversion E; subst. pose proof (S2 eq_refl). destruct rM; [discriminate| |];
+          (eexists _, _; split; [reflexivity|]; split; [split; auto|exact G]).
+      * intros E; inversion E; subst. pose proof (S2 eq_refl). destruct rM; [discriminate| |];
+          (eexists _, _; split; [reflexivity|]; split; [split; auto|exact G]).
+    + destruct (premark_none _ _ P) as (id & g & r & -> & B & F).
+      pose proof (rel_undef _ _ _ R F) as FT. intros E.
+      exists (Err EUndefined), st.
+      destruct n as [|n']; simpl in E.
+      * inversion E; subst. split; [reflexivity|]. split; [split; [discriminate|auto]|apply good_refl].
+      * rewrite B, FT in E. inversion E; subst. split; [reflexivity|]. split; [split; [discriminate|auto]|apply good_refl].
+  - destruct (slookup (gkey nm) gv).
+    + intros E; inversion E; subst. eexists _, _. split; [reflexivity|]. split; [apply sim1_same|apply good_refl].
+    + destruct (evalS n ft gv (out st) init) as [r1 o1] eqn:E1.
+      destruct (evalM_sim ft n st gv init r1 o1 I R E1) as (rM & st1 & EM & [S1 S2]).
+      rewrite EM. pose proof (evalM_good n _ _ _ _ _ EM) as G1.
+      destruct r1 as [v|er|].
+      * destruct (S1 eq_refl) as [-> O1]. intros E; inversion E; subst. eexists _, _. split; [reflexivity|].
+        split; [split; [intros _; rewrite apply_def_out; auto|discriminate]|].
+        eapply good_trans; [exact G1|]. apply apply_def_good. apply G1.
+      * intros E; inversion E; subst. pose proof (S2 eq_refl). destruct rM; [discriminate| |];
+          (eexists _, _; split; [reflexivity|]; split; [split; auto|exact G1]).
+      * intros E; inversion E; subst. pose proof (S2 eq_refl). destruct rM; [discriminate| |];
+          (eexists _, _; split; [reflexivity|]; split; [split; auto|exact G1]).
 Qed.
 
-Lemma compile_defs_sim : forall fs st ft gv, Inv st -> Rel st ft ->
-  snd (compile_defs st gv fs) = snd (compile_defsS ft gv fs) /\
-  snd (fst (compile_defs st gv fs)) = snd (fst (compile_defsS ft gv fs)) /\
-  Inv (fst (fst (compile_defs st gv fs))) /\
-  Rel (fst (fst (compile_defs st gv fs))) (fst (fst (compile_defsS ft gv fs))) /\
-  out (fst (fst (compile_defs st gv fs))) = out st.
+Lemma run_forms_sim : forall n fs st ft gv v rS oS ft' gv', Inv st -> Rel st ft ->
+  run_formsS n ft gv (out st) fs v = (rS, oS, ft', gv') ->
+  exists rM st', run_forms n st gv fs v = (rM, st', gv') /\ sim1 rS oS rM st' /\ Inv st' /\ Rel st' ft'.
 Proof.
-  induction fs as [|t r IH]; simpl; intros st ft gv I R; auto.
-  destruct t as [e|nm].
-  - destruct (parse_defun e) as [[[nm ps] body]|] eqn:PD.
-    + destruct (defunM_step st ft nm ps body I R) as (I' & R' & O').
-      specialize (IH _ _ gv I' R').
-      destruct (compile_defs (defunM st nm ps body) gv r) as [[st' gv'] r'].
-      destruct (compile_defsS ((nm, (ps, body)) :: ft) gv r) as [[ft' gv''] r'']. simpl in *.
-      destruct IH as (A & A2 & B & C & D). split; [congruence|split; [auto|split; [auto|split; [auto|congruence]]]].
-    + destruct (parse_gdef e) as [[[always nm] z]|] eqn:PG.
-      * specialize (IH _ _ (gdef gv always nm z) I R).
-        destruct (compile_defs st (gdef gv always nm z) r) as [[st' gv'] r'].
-        destruct (compile_defsS ft (gdef gv always nm z) r) as [[ft' gv''] r'']. simpl in *.
-        destruct IH as (A & A2 & B & C & D). split; [congruence|split; [auto|split; [auto|split; [auto|congruence]]]].
-      * specialize (IH _ _ gv I R). destruct (compile_defs st gv r) as [[st' gv'] r'].
-        destruct (compile_defsS ft gv r) as [[ft' gv''] r'']. simpl in *.
-        destruct IH as (A & A2 & B & C & D). split; [congruence|split; [auto|split; [auto|split; [auto|congruence]]]].
-  - specialize (IH _ _ gv I R). destruct (compile_defs st gv r) as [[st' gv'] r'].
-    destruct (compile_defsS ft gv r) as [[ft' gv''] r'']. simpl in *.
-    destruct IH as (A & A2 & B & C & D). split; [congruence|split; [auto|split; [auto|split; [auto|congruence]]]].
+  intros n. induction fs as [|t r IH]; simpl; intros st ft gv v rS oS ft' gv' I R E.
+  - inversion E; subst. eexists _, _. split; [reflexivity|]. split; [apply sim1_same|auto].
+  - destruct t as [e|nm]; [|eapply IH; eauto].
+    destruct (parse_defun e) as [[[nm ps] body]|] eqn:PD.
+    + destruct (defunM_step st ft nm ps body [] I R) as (I' & R' & O'). rewrite <- O' in E. eapply IH; eauto.
+    + destruct (parse_letdefun e) as [[[[clos nm] ps] body]|] eqn:PL.
+      * destruct (defunM_step st ft nm ps body clos I R) as (I' & R' & O'). rewrite <- O' in E. eapply IH; eauto.
+      * destruct (parse_gdef e) as [[[always nm] init]|] eqn:PG.
+        -- destruct (gdef_evalS (evalS n ft) gv (out st) always nm init) as [[r1 o1] gv1] eqn:E1.
+           destruct (gdef_eval_sim n st ft gv always nm init r1 o1 gv1 I R E1) as (rM & st1 & EM & [S1 S2] & [T1 I1]).
+           rewrite EM. destruct r1 as [w|er|].
+           ++ destruct (S1 eq_refl) as [-> O1]. rewrite <- O1 in E. eapply IH; eauto. eapply same_tabs_rel; eauto.
+           ++ inversion E; subst. pose proof (S2 eq_refl). destruct rM; [discriminate| |];
+                (eexists _, _; split; [reflexivity|]; split; [split; auto|split; [auto|eapply same_tabs_rel; eauto]]).
+           ++ inversion E; subst. pose proof (S2 eq_refl). destruct rM; [discriminate| |];
+                (eexists _, _; split; [reflexivity|]; split; [split; auto|split; [auto|eapply same_tabs_rel; eauto]]).
+        -- destruct (evalS n ft gv (out st) e) as [r1 o1] eqn:E1.
+           destruct (evalM_sim ft n st gv e r1 o1 I R E1) as (rM & st1 & EM & [S1 S2]).
+           rewrite EM. pose proof (evalM_good n _ _ _ _ _ EM) as [T1 I1].
+           destruct r1 as [w|er|].
+           ++ destruct (S1 eq_refl) as [-> O1]. rewrite <- O1 in E. eapply IH; eauto. eapply same_tabs_rel; eauto.
+           ++ inversion E; subst. pose proof (S2 eq_refl). destruct rM; [discriminate| |];
+                (eexists _, _; split; [reflexivity|]; split; [split; auto|split; [auto|eapply same_tabs_rel; eauto]]).
+           ++ inversion E; subst. pose proof (S2 eq_refl). destruct rM; [discriminate| |];
+                (eexists _, _; split; [reflexivity|]; split; [split; auto|split; [auto|eapply same_tabs_rel; eauto]]).
+Qed.
+
+(* Code.Compile's first loop: the definitions made at compile time, the init forms evaluated then, the condition
+   that ends it and the rewritten code object are S's *)
+Lemma compile_defs_sim : forall n fs st ft gv xS oS ft' gv' fs', Inv st -> Rel st ft ->
+  compile_defsS n ft gv (out st) fs = (xS, oS, ft', gv', fs') ->
+  exists xM st', compile_defs n st gv fs = (xM, st', gv', fs') /\ sim1 xS oS xM st' /\ Inv st' /\ Rel st' ft'.
+Proof.
+  intros n. induction fs as [|t r IH]; simpl; intros st ft gv xS oS ft' gv' fs' I R E.
+  - inversion E; subst. eexists _, _. split; [reflexivity|]. split; [apply sim1_same|auto].
+  - assert (KEEP : forall t0, (let '(x, o', ft0, gv0, r') := compile_defsS n ft gv (out st) r in (x, o', ft0, gv0, t0 :: r')) = (xS, oS, ft', gv', fs') ->
+       exists xM st', (let '(x, st0, gv0, r') := compile_defs n st gv r in (x, st0, gv0, t0 :: r')) = (xM, st', gv', fs') /\
+                      sim1 xS oS xM st' /\ Inv st' /\ Rel st' ft').
+    { intros t0 E'. destruct (compile_defsS n ft gv (out st) r) as [[[[x o'] ft0] gv0] r'] eqn:ER.
+      inversion E'; subst. destruct (IH _ _ _ _ _ _ _ _ I R ER) as (xM & st' & EM & S & I' & R').
+      rewrite EM. eauto 10. }
+    destruct t as [e|nm]; [|apply KEEP; exact E].
+    destruct (parse_defun e) as [[[nm ps] body]|] eqn:PD.
+    + destruct (defunM_step st ft nm ps body [] I R) as (I' & R' & O'). rewrite <- O' in E.
+      destruct (compile_defsS n ((nm, (ps, body, [])) :: ft) gv (out (defunM st nm ps body [])) r) as [[[[x o'] ft0] gv0] r'] eqn:ER.
+      inversion E; subst. destruct (IH _ _ _ _ _ _ _ _ I' R' ER) as (xM & st' & EM & S & I'' & R'').
+      rewrite EM. eauto 10.
+    + destruct (parse_letdefun e) as [[[[clos nm] ps] body]|] eqn:PL; [apply KEEP; exact E|].
+      destruct (parse_gdef e) as [[[always nm] init]|] eqn:PG; [|apply KEEP; exact E].
+      destruct (gdef_evalS (evalS n ft) gv (out st) always nm init) as [[r1 o1] gv1] eqn:E1.
+      destruct (gdef_eval_sim n st ft gv always nm init r1 o1 gv1 I R E1) as (rM & st1 & EM & [S1 S2] & [T1 I1]).
+      rewrite EM. destruct r1 as [w|er|].
+      * destruct (S1 eq_refl) as [-> O1]. rewrite <- O1 in E.
+        destruct (compile_defsS n ft gv1 (out st1) r) as [[[[x o'] ft0] gv0] r'] eqn:ER.
+        inversion E; subst.
+        destruct (IH _ _ _ _ _ _ _ _ (I1 I) (same_tabs_rel _ _ _ T1 R) ER) as (xM & st' & EM2 & S & I'' & R'').
+        rewrite EM2. eauto 10.
+      * inversion E; subst. pose proof (S2 eq_refl). destruct rM; [discriminate| |];
+          (eexists _, _; split; [reflexivity|]; split; [split; auto|split; [auto|eapply same_tabs_rel; eauto]]).
+      * inversion E; subst. pose proof (S2 eq_refl). destruct rM; [discriminate| |];
+          (eexists _, _; split; [reflexivity|]; split; [split; auto|split; [auto|eapply same_tabs_rel; eauto]]).
 Qed.
 Lemma compile_rest_cgood : forall fs st, cgood st (compile_rest st fs).
 Proof.
   unfold compile_rest. induction fs as [|t r IH]; simpl; intros st; [apply cgood_refl|].
-  eapply cgood_trans; [|apply IH]. destruct t; [apply compile_slot_cgood|apply cgood_refl].
+  eapply cgood_trans; [|apply IH]. destruct t as [e|nm]; [|apply cgood_refl].
+  destruct (parse_letdefun e); [apply cgood_refl|apply compile_slot_cgood].
 Qed.
 Lemma cgood_rel : forall st st' ft, cgood st st' -> Inv st -> Rel st ft -> Inv st' /\ Rel st' ft.
 Proof.
@@ -907,17 +966,27 @@ Proof.
   intros n m s o (I & R & CE & GE). destruct o as [cid forms|cid|cid]; simpl in *.
   - split; auto. unfold HInv; simpl. split; [auto|split; [auto|split; [congruence|auto]]].
   - rewrite <- CE, <- GE. destruct (nlookup cid (codes m)) as [fs|]; [|split; [unfold HInv; auto|simpl; auto]].
-    destruct (compile_defs_sim fs (ms m) (sft s) (mgv m) I R) as (A & A2 & B & C & D).
-    destruct (compile_defs (ms m) (mgv m) fs) as [[st1 gv1] fs'].
-    destruct (compile_defsS (sft s) (mgv m) fs) as [[ft' gv1'] fs'']. simpl in *. subst fs'' gv1'.
-    destruct (cgood_rel _ _ _ (compile_rest_cgood fs' st1) B C) as [I' R'].
-    split; auto. unfold HInv; simpl. split; [auto|split; [auto|split; [congruence|auto]]].
+    pose proof (good_set_out (ms m) []) as [T0 I0].
+    destruct (compile_defsS n (sft s) (mgv m) [] fs) as [[[[xS oS] ft'] gv'] fs'] eqn:ES.
+    destruct (compile_defs_sim n fs (set_out (ms m) []) (sft s) (mgv m) xS oS ft' gv' fs' (I0 I)
+                (same_tabs_rel _ _ _ T0 R) ES) as (xM & st1 & EM & [S1 S2] & I1 & R1).
+    rewrite EM. destruct xM as [w|er|].
+    + destruct (cgood_rel _ _ _ (compile_rest_cgood fs' st1) I1 R1) as [I' R'].
+      pose proof (cg_out _ _ (compile_rest_cgood fs' st1 I1)) as OC.
+      simpl. split; [unfold HInv; simpl; split; [auto|split; [auto|split; [congruence|auto]]]|].
+      split; simpl.
+      * intros C. destruct (S1 C) as [<- <-]. rewrite OC. reflexivity.
+      * intros NV. destruct xS; [discriminate| |]; specialize (S2 eq_refl); discriminate.
+    + simpl. split; [unfold HInv; simpl; split; [auto|split; [auto|split; [congruence|auto]]]|].
+      split; simpl; auto. intros C. destruct (S1 C) as [<- <-]. reflexivity.
+    + simpl. split; [unfold HInv; simpl; split; [auto|split; [auto|split; [congruence|auto]]]|].
+      split; simpl; auto. intros C. destruct (S1 C) as [<- <-]. reflexivity.
   - rewrite <- CE, <- GE. destruct (nlookup cid (codes m)) as [fs|]; [|split; [unfold HInv; auto|simpl; auto]].
     pose proof (good_set_out (ms m) []) as [T0 I0].
-    destruct (run_forms_sim n fs (set_out (ms m) []) (sft s) (mgv m) VNil (I0 I) (same_tabs_rel _ _ _ T0 R))
+    destruct (run_formsS n (sft s) (mgv m) [] fs VNil) as [[[rS oS] ft'] gv'] eqn:ES.
+    destruct (run_forms_sim n fs (set_out (ms m) []) (sft s) (mgv m) VNil rS oS ft' gv' (I0 I) (same_tabs_rel _ _ _ T0 R) ES)
       as (rM & st' & EM & S1 & I' & R').
-    simpl in EM, S1, R'. rewrite EM.
-    destruct (run_formsS n (sft s) (mgv m) [] fs VNil) as [[[rS oS] ft'] gv']. simpl in *.
+    rewrite EM. simpl.
     split; [unfold HInv; simpl; auto|].
     destruct S1 as [S1 S2]. split; simpl; auto.
     intros Cc. destruct (S1 Cc) as [-> ->]. reflexivity.
@@ -973,14 +1042,14 @@ Proof.
 Qed.
 
 (* redefinition between evaluations is seen by code that was already evaluated (and so compiled in place) *)
-Theorem late_binding : forall n st ft en e g ps body r0 st0 rS oS, Inv st -> Rel st ft ->
+Theorem late_binding : forall n st ft en e g ps body clos r0 st0 rS oS, Inv st -> Rel st ft ->
   evalM n st en e = (r0, st0) ->
-  evalS n ((g, (ps, body)) :: ft) en (out st0) e = (rS, oS) -> comparable rS = true ->
-  exists st1, evalM n (defunM st0 g ps body) en e = (rS, st1) /\ out st1 = oS.
+  evalS n ((g, (ps, body, clos)) :: ft) en (out st0) e = (rS, oS) -> comparable rS = true ->
+  exists st1, evalM n (defunM st0 g ps body clos) en e = (rS, st1) /\ out st1 = oS.
 Proof.
-  intros n st ft en e g ps body r0 st0 rS oS I R E0 E C.
+  intros n st ft en e g ps body clos r0 st0 rS oS I R E0 E C.
   pose proof (evalM_good n _ _ _ _ _ E0) as [T0 I0].
-  destruct (defunM_step st0 ft g ps body (I0 I) (same_tabs_rel _ _ _ T0 R)) as (I1 & R1 & O1).
+  destruct (defunM_step st0 ft g ps body clos (I0 I) (same_tabs_rel _ _ _ T0 R)) as (I1 & R1 & O1).
   rewrite <- O1 in E.
   destruct (evalM_sim _ n _ en e rS oS I1 R1 E) as (rM & st1 & EM & [S1 _]).
   destruct (S1 C) as [-> O]. eauto.
@@ -988,15 +1057,15 @@ Qed.
 
 (* a call compiled before its function exists (placeholder) passes its arguments once the function exists:
    compile the form while g is unknown, define g, evaluate the compiled form = S with g's definition *)
-Theorem forward_reference : forall n st ft en e g ps body rS oS, Inv st -> Rel st ft ->
+Theorem forward_reference : forall n st ft en e g ps body clos rS oS, Inv st -> Rel st ft ->
   slookup g (funcs st) = None ->
-  evalS n ((g, (ps, body)) :: ft) en (out st) e = (rS, oS) -> comparable rS = true ->
-  exists st2, evalM n (defunM (compile_slot st e) g ps body) en e = (rS, st2) /\ out st2 = oS.
+  evalS n ((g, (ps, body, clos)) :: ft) en (out st) e = (rS, oS) -> comparable rS = true ->
+  exists st2, evalM n (defunM (compile_slot st e) g ps body clos) en e = (rS, st2) /\ out st2 = oS.
 Proof.
-  intros n st ft en e g ps body rS oS I R F E C.
+  intros n st ft en e g ps body clos rS oS I R F E C.
   pose proof (compile_slot_cgood e st I) as CG.
   destruct (cgood_rel _ _ ft (compile_slot_cgood e st) I R) as [I1 R1].
-  destruct (defunM_step _ ft g ps body I1 R1) as (I2 & R2 & O2).
+  destruct (defunM_step _ ft g ps body clos I1 R1) as (I2 & R2 & O2).
   rewrite <- (cg_out _ _ CG), <- O2 in E.
   destruct (evalM_sim _ n _ en e rS oS I2 R2 E) as (rM & st2 & EM & [S1 _]).
   destruct (S1 C) as [-> O]. eauto.
@@ -1040,7 +1109,7 @@ Proof.
     + unfold eval_caseS. destruct args as [|k clauses]; auto.
       rewrite (eval_argsS_ext _ _ IH). destruct (eval_argsS (evalS n ft') en o [k]) as [[[|key [|? ?]]|r] o1]; auto.
       destruct (select_clause key clauses); auto. apply eval_seqS_ext; auto.
-  - rewrite H. destruct (slookup f ft') as [[ps forms]|]; auto.
+  - rewrite H. destruct (slookup f ft') as [[[ps forms] clos]|]; auto.
     rewrite (eval_argsS_ext _ _ IH). destruct (eval_argsS (evalS n ft') en o args) as [[vs|r] o1]; auto.
     destruct (arity_err _ _); auto. apply eval_bodyS_ext; auto.
 Qed.
@@ -1084,12 +1153,12 @@ Proof. intros. apply evalS_ext. intros. apply deftab_order_independent; auto. Qe
 
 (* ---- the same at the level of M: a block of definitions of distinct names, in any order ------------- *)
 Fixpoint defunsM (st : state) (ds : list (string * def)) : state :=
-  match ds with [] => st | (nm, (ps, body)) :: r => defunsM (defunM st nm ps body) r end.
+  match ds with [] => st | (nm, (ps, body, clos)) :: r => defunsM (defunM st nm ps body clos) r end.
 Lemma defunsM_rel : forall ds st ft, Inv st -> Rel st ft ->
   Inv (defunsM st ds) /\ Rel (defunsM st ds) (deftab ds ft) /\ out (defunsM st ds) = out st.
 Proof.
-  induction ds as [|[nm [ps body]] r IH]; simpl; intros st ft I R; auto.
-  destruct (defunM_step st ft nm ps body I R) as (I' & R' & O').
+  induction ds as [|[nm [[ps body] clos]] r IH]; simpl; intros st ft I R; auto.
+  destruct (defunM_step st ft nm ps body clos I R) as (I' & R' & O').
   destruct (IH _ _ I' R') as (A & B & C). split; [auto|split; [auto|congruence]].
 Qed.
 (* no guard hypothesis any more: whatever has been defined, called or compiled before (names of the block
@@ -1162,6 +1231,50 @@ Example bare_symbol_repaired :
   runS 50 sinit bare_ops2 = [(Err EUnbound, [])] /\ runM 50 minit bare_ops2 = [(Err EUnbound, [])].
 Proof. vm_compute. auto. Qed.
 
+(* init forms of variable definitions are evaluated where they stand, also by Code.Compile (one pass in source
+   order): (defun s (n) (+ n 2)) (defparameter b (s 5)) (defun s (n) (+ n 3)) (list b (s 5)) is (7 8) from the
+   list form and compiled; an init form that calls a function defined further down is undefined-function in both
+   (when compiled: the condition leaves Code.Compile, the later definitions are not made, evaluating the object
+   afterwards signals it again) *)
+Definition init_forms : list sexp :=
+  [dfn 1 "s" 2 ["n"] [SList 3 [SSym "+"; SSym "n"; SInt 2]];
+   SList 4 [SSym "defparameter"; SSym "b"; SList 5 [SSym "s"; SInt 5]];
+   dfn 6 "s" 7 ["n"] [SList 8 [SSym "+"; SSym "n"; SInt 3]];
+   SList 9 [SSym "list"; SSym "b"; SList 10 [SSym "s"; SInt 5]]].
+Definition init_forms2 : list sexp :=
+  [SList 1 [SSym "defvar"; SSym "v"; SList 2 [SSym "later"; SList 3 [SSym "emit"; SInt 1]]];
+   dfn 4 "later" 5 ["n"] [SList 6 [SSym "+"; SSym "n"; SInt 6]];
+   SList 7 [SSym "list"; SSym "v"]].
+Example init_form_timing :
+  let v78 := Val (VList [VInt 7; VInt 8]) in
+  runM 50 minit [OLoad 0 init_forms; ORun 0] = [(v78, [])] /\
+  runS 50 sinit [OLoad 0 init_forms; ORun 0] = [(v78, [])] /\
+  runM 50 minit [OLoad 0 init_forms; OCompile 0; ORun 0] = [(Val VNil, []); (v78, [])] /\
+  runS 50 sinit [OLoad 0 init_forms; OCompile 0; ORun 0] = [(Val VNil, []); (v78, [])] /\
+  runM 50 minit [OLoad 0 init_forms2; ORun 0] = [(Err EUndefined, [])] /\
+  runS 50 sinit [OLoad 0 init_forms2; ORun 0] = [(Err EUndefined, [])] /\
+  runM 50 minit [OLoad 0 init_forms2; OCompile 0; ORun 0] = [(Err EUndefined, []); (Err EUndefined, [])] /\
+  runS 50 sinit [OLoad 0 init_forms2; OCompile 0; ORun 0] = [(Err EUndefined, []); (Err EUndefined, [])].
+Proof. vm_compute. auto 10. Qed.
+(* a definition replaces the closure too: (let ((step 10)) (defun bump (n) (+ n step))) (bump 1) is 11; after
+   (defvar step 1) (defun bump (n) (+ n step)) at top level (bump 1) is 2 - the let's variable is gone -, and a
+   caller compiled while bump had the closure follows *)
+Definition closure_ops : list op :=
+  [OLoad 0 [SList 1 [SSym "let"; SList 2 [SList 3 [SSym "step"; SInt 10]];
+                     dfn 4 "bump" 5 ["n"] [SList 6 [SSym "+"; SSym "n"; SSym "step"]]];
+            dfn 7 "twice" 8 ["n"] [SList 9 [SSym "bump"; SList 10 [SSym "bump"; SSym "n"]]];
+            SList 11 [SSym "twice"; SInt 1]];
+   ORun 0;
+   OLoad 1 [SList 12 [SSym "defvar"; SSym "step"; SInt 1];
+            dfn 13 "bump" 14 ["n"] [SList 15 [SSym "+"; SSym "n"; SSym "step"]];
+            SList 16 [SSym "list"; SList 17 [SSym "bump"; SInt 1]; SList 18 [SSym "twice"; SInt 1]]];
+   OCompile 1; ORun 1; ORun 0].
+Example closure_replaced :
+  runM 50 minit closure_ops = runS 50 sinit closure_ops /\
+  runS 50 sinit closure_ops =
+    [(Val (VInt 21), []); (Val VNil, []); (Val (VList [VInt 2; VInt 3]), []); (Val (VInt 21), [])].
+Proof. vm_compute. auto. Qed.
+
 (* non-vacuity: a history with a forward reference (caller before callee), compilation, repeated
    evaluation of the same code object, a redefinition between evaluations; all outcomes are values and
    M = S; the state has compiled slots and a patched placeholder *)
@@ -1176,7 +1289,7 @@ Definition demo_ops : list op :=
 Example demo_guarded :
   runM 50 minit demo_ops = runS 50 sinit demo_ops /\
   runS 50 sinit demo_ops =
-    [(Val (VSym "callee"), []);
+    [(Val (VSym "callee"), []); (Val VNil, []);
      (Val (VList [VInt 7; VInt 2]), [VInt 2]); (Val (VList [VInt 7; VInt 2]), [VInt 2]);
      (Val (VSym "caller"), []);
      (Val (VList [VInt 7; VInt 3]), [VInt 3])].
@@ -1189,9 +1302,9 @@ Example demo_state_nontrivial :
 Proof. vm_compute. auto 10. Qed.
 (* hypotheses of the expression-level theorems are satisfiable in that state *)
 Example demo_inv : Inv demo_state /\ Rel demo_state
-   [("caller", (["a"], [SList 11 [SSym "callee"; SSym "a"; SInt 3]]));
-    ("callee", (["p"; "q"], [SList 6 [SSym "list"; SSym "p"; SList 7 [SSym "emit"; SSym "q"]]]));
-    ("caller", (["a"], [SList 3 [SSym "callee"; SSym "a"; SInt 2]]))].
+   [("caller", (["a"], [SList 11 [SSym "callee"; SSym "a"; SInt 3]], []));
+    ("callee", (["p"; "q"], [SList 6 [SSym "list"; SSym "p"; SList 7 [SSym "emit"; SSym "q"]]], []));
+    ("caller", (["a"], [SList 3 [SSym "callee"; SSym "a"; SInt 2]], []))].
 Proof.
   assert (H : forall ops m s, HInv m s ->
      HInv (fold_left (fun m o => fst (stepM 50 m o)) ops m) (fold_left (fun s o => fst (stepS 50 s o)) ops s)).
